@@ -89,9 +89,14 @@ package refopts
 
 // Given contracts so that mainImplementation is checked against them instead
 // of inlining their bodies (their own verification is listed where claimed).
-//@ assumed func NewRefGroupBuilder
-//@   trust A-CALLEE-UNVERIFIED
-//@   modifies everything
+// A builder is either returned complete — the top-level group registered
+// under "", every registered group non-nil and carrying its own symbol — or
+// not at all (error: nil builder). Only group objects are written.
+//@ func NewRefGroupBuilder
+//@   modifies fieldmem(refGroup.subgroups), fieldmem(refGroup.filter), fieldmem(sizes.RefGroup.Name)
+//@   ensures result1 != nil ==> result0 == nil
+//@   ensures result1 == nil ==> result0 != nil && fresh(result0) && has(result0.groups, "") && result0.topLevelGroup == result0.groups[""] && result0.topLevelGroup != nil
+//@   ensures result1 == nil ==> forall s sizes.RefGroupSymbol :: has(result0.groups, s) ==> result0.groups[s] != nil && keyof(result0.groups[s].Symbol) == keyof(s)
 //@ assumed func NewShowRefGrouper
 //@   trust A-CALLEE-UNVERIFIED
 //@   pure
@@ -214,14 +219,15 @@ package refopts
 // or a new one that is registered under exactly `symbol` and hangs below the
 // group of its parent symbol; no existing group is replaced.
 //@ func (*RefGroupBuilder).getGroup
+//@   option heap-order
 //@   requires has(rgb.groups, "")
-//@   requires forall s sizes.RefGroupSymbol :: has(rgb.groups, s) ==> rgb.groups[s] != nil
+//@   requires forall s sizes.RefGroupSymbol :: has(rgb.groups, s) ==> rgb.groups[s] != nil && keyof(rgb.groups[s].Symbol) == keyof(s)
 //@   decreases len(symbol)
 //@   modifies map(rgb.groups), fieldmem(refGroup.subgroups)
 //@   call 0 parentName as pn
 //@   ensures result != nil && has(rgb.groups, symbol) && rgb.groups[symbol] == result
 //@   ensures forall s sizes.RefGroupSymbol :: old(has(rgb.groups, s)) ==> has(rgb.groups, s) && rgb.groups[s] == old(rgb.groups[s])
-//@   ensures forall s sizes.RefGroupSymbol :: has(rgb.groups, s) ==> rgb.groups[s] != nil
+//@   ensures forall s sizes.RefGroupSymbol :: has(rgb.groups, s) ==> rgb.groups[s] != nil && keyof(rgb.groups[s].Symbol) == keyof(s)
 //@   ensures old(has(rgb.groups, symbol)) ==> result == old(rgb.groups[symbol])
 //@   ensures !old(has(rgb.groups, symbol)) ==> fresh(result)
 //@   ensures !old(has(rgb.groups, symbol)) ==> same(result.Symbol, symbol)
@@ -239,7 +245,7 @@ package refopts
 // symbol and repeated symbols trigger none. A failure to read is returned.
 //@ func (*RefGroupBuilder).readRefgroupsFromGitconfig
 //@   requires has(rgb.groups, "")
-//@   requires forall s sizes.RefGroupSymbol :: has(rgb.groups, s) ==> rgb.groups[s] != nil
+//@   requires forall s sizes.RefGroupSymbol :: has(rgb.groups, s) ==> rgb.groups[s] != nil && keyof(rgb.groups[s].Symbol) == keyof(s)
 //@   modifies map(rgb.groups), fieldmem(refGroup.subgroups), fieldmem(refGroup.filter), fieldmem(sizes.RefGroup.Name)
 //@   ghost nAug counts augmentFromConfig
 //@   call 0 GetConfig assert keyof(arg_0) == keyof("refgroup")
@@ -247,13 +253,47 @@ package refopts
 //@   call 0 splitKey as sk
 //@   call 0 augmentFromConfig assert arg_0 != nil && arg_0 == rgb.groups[symbol] && len(symbol) > 0
 //@   loop 0 invariant has(rgb.groups, "")
-//@   loop 0 invariant forall s sizes.RefGroupSymbol :: has(rgb.groups, s) ==> rgb.groups[s] != nil
+//@   loop 0 invariant forall s sizes.RefGroupSymbol :: has(rgb.groups, s) ==> rgb.groups[s] != nil && keyof(rgb.groups[s].Symbol) == keyof(s)
+//@   loop 0 invariant forall s sizes.RefGroupSymbol :: old(has(rgb.groups, s)) ==> has(rgb.groups, s) && rgb.groups[s] == old(rgb.groups[s])
 //@   loop 0 step len(symbol) > 0 && !prev(has(seen, symbol) && seen[symbol]) ==> nAug == prev(nAug) + 1 && has(seen, symbol) && seen[symbol]
 //@   loop 0 step len(symbol) == 0 || prev(has(seen, symbol) && seen[symbol]) ==> nAug == prev(nAug)
 //@   loop 0 step forall s sizes.RefGroupSymbol :: prev(has(seen, s) && seen[s]) ==> has(seen, s) && seen[s]
 //@   ensures configger == nil ==> result == nil && unchanged_all()
+//@   ensures forall s sizes.RefGroupSymbol :: old(has(rgb.groups, s)) ==> has(rgb.groups, s) && rgb.groups[s] == old(rgb.groups[s])
 //@   ensures has(rgb.groups, "")
-//@   ensures forall s sizes.RefGroupSymbol :: has(rgb.groups, s) ==> rgb.groups[s] != nil
+//@   ensures forall s sizes.RefGroupSymbol :: has(rgb.groups, s) ==> rgb.groups[s] != nil && keyof(rgb.groups[s].Symbol) == keyof(s)
 
-//@ property C15: (*RefGroupBuilder).readRefgroupsFromGitconfig (*RefGroupBuilder).getGroup
-//@ property C07: (*RefGroupBuilder).getGroup
+//@ property C15: (*RefGroupBuilder).readRefgroupsFromGitconfig (*RefGroupBuilder).getGroup NewRefGroupBuilder
+//@ property C07: (*RefGroupBuilder).getGroup (*RefGroupBuilder).initializeStandardRefgroups (*RefGroupBuilder).initializeStandardRefgroups$1 NewRefGroupBuilder
+//@ property C06: (*RefGroupBuilder).initializeStandardRefgroups (*RefGroupBuilder).initializeStandardRefgroups$1
+
+// The built-in groups: each is registered under its documented symbol with
+// exactly the documented rule ("--branches, --tags, --remotes, --notes,
+// --stash ... behave as the corresponding prefix or exact-name rules", C06;
+// the same groups are the built-in rows of the reference tally, C07).
+// That the two constant regular expressions compile is A-STD-REGEXP-CONST.
+//@ func (*RefGroupBuilder).initializeStandardRefgroups$1
+//@   requires has((*rgb).groups, "")
+//@   requires forall s sizes.RefGroupSymbol :: has((*rgb).groups, s) ==> (*rgb).groups[s] != nil && keyof((*rgb).groups[s].Symbol) == keyof(s)
+//@   modifies map((*rgb).groups), fieldmem(refGroup.subgroups), fieldmem(refGroup.filter), fieldmem(sizes.RefGroup.Name)
+//@   ensures has((*rgb).groups, "")
+//@   ensures forall s sizes.RefGroupSymbol :: has((*rgb).groups, s) ==> (*rgb).groups[s] != nil && keyof((*rgb).groups[s].Symbol) == keyof(s)
+//@   ensures forall s sizes.RefGroupSymbol :: old(has((*rgb).groups, s)) ==> has((*rgb).groups, s) && (*rgb).groups[s] == old((*rgb).groups[s])
+//@   ensures has((*rgb).groups, symbol) && (*rgb).groups[symbol].filter == filter && same((*rgb).groups[symbol].Name, name)
+//@   ensures forall s sizes.RefGroupSymbol :: old(has((*rgb).groups, s)) && keyof(s) != keyof(symbol) ==> (*rgb).groups[s].filter == old((*rgb).groups[s].filter) && same((*rgb).groups[s].Name, old((*rgb).groups[s].Name))
+
+//@ func (*RefGroupBuilder).initializeStandardRefgroups
+//@   option assume-nopanic A-STD-REGEXP-CONST
+//@   requires has(rgb.groups, "")
+//@   requires forall s sizes.RefGroupSymbol :: has(rgb.groups, s) ==> rgb.groups[s] != nil && keyof(rgb.groups[s].Symbol) == keyof(s)
+//@   modifies map(rgb.groups), fieldmem(refGroup.subgroups), fieldmem(refGroup.filter), fieldmem(sizes.RefGroup.Name)
+//@   ensures has(rgb.groups, "")
+//@   ensures forall s sizes.RefGroupSymbol :: has(rgb.groups, s) ==> rgb.groups[s] != nil && keyof(rgb.groups[s].Symbol) == keyof(s)
+//@   ensures forall s sizes.RefGroupSymbol :: old(has(rgb.groups, s)) ==> has(rgb.groups, s) && rgb.groups[s] == old(rgb.groups[s])
+//@   ensures has(rgb.groups, "branches") && (forall r string :: apply(rgb.groups["branches"].filter, r) == prefixMatch("refs/heads/", r))
+//@   ensures has(rgb.groups, "tags") && (forall r string :: apply(rgb.groups["tags"].filter, r) == prefixMatch("refs/tags/", r))
+//@   ensures has(rgb.groups, "remotes") && (forall r string :: apply(rgb.groups["remotes"].filter, r) == prefixMatch("refs/remotes/", r))
+//@   ensures has(rgb.groups, "pulls") && (forall r string :: apply(rgb.groups["pulls"].filter, r) == prefixMatch("refs/pull/", r))
+//@   ensures has(rgb.groups, "notes") && (forall r string :: apply(rgb.groups["notes"].filter, r) == prefixMatch("refs/notes/", r))
+//@   ensures has(rgb.groups, "changes") && (forall r string :: apply(rgb.groups["changes"].filter, r) == fullMatchK(keyof("refs/changes/\\d{2}/\\d+/\\d+"), keyof(r)))
+//@   ensures has(rgb.groups, "stash") && (forall r string :: apply(rgb.groups["stash"].filter, r) == fullMatchK(keyof("refs/stash"), keyof(r)))
